@@ -18,7 +18,13 @@ func init() {
 		*fBudget = total
 		return res
 	}
-	engines["C03"] = func() *ShardResult { return runCrash("C03") }
+	engines["C03"] = func() *ShardResult {
+		res := runCrash("C03")
+		if *fShard == 0 {
+			initCrashImages(res)
+		}
+		return res
+	}
 	engines["C04"] = func() *ShardResult { return runCrash("C04") }
 }
 
@@ -26,6 +32,9 @@ func genOf(m *core.Model, idx uint64) int { return len(m.Hist[idx]) }
 
 func nextIdx(m *core.Model) []uint64 {
 	if m.Last == 0 {
+		if m.PrevLast > 0 && m.PrevLast+1 != 1 && m.PrevLast+1 != 5 {
+			return []uint64{1, 5, m.PrevLast + 1}
+		}
 		return []uint64{1, 5}
 	}
 	return []uint64{m.Last + 1}
@@ -152,7 +161,7 @@ func runCrash(prop string) *ShardResult {
 		cc.WorkLen = func(l int) int { return wl(l) + 1 }
 	}
 	cc.ExpandPerClass = 3
-	cc.Lazy = prop == "C01" || prop == "C03" || prop == "C04" || prop == "C13"
+	cc.Lazy = prop == "C01" || prop == "C02" || prop == "C03" || prop == "C04" || prop == "C13"
 	res.Bounds["lazy_rotation_variant"] = cc.Lazy
 	cc.ChunkCap = 1 << 10
 	if thorough {
